@@ -217,6 +217,8 @@ class FakeSession:
     async def _request(self, method: str, url: str, payload: Any, headers: dict[str, str],
                        timeout: Any) -> FakeResponse:
         if self._closed:
+            self.net.sim.count('probe.request-on-closed-session')
+            self.net.closed_session_attempts.append((self.net.sim.now, self.actor, self.token))
             raise RuntimeError("Session is closed")
         loop = asyncio.get_running_loop()
         fut: asyncio.Future[FakeResponse] = loop.create_future()
@@ -265,6 +267,7 @@ class Network:
         self.open_streams: list["WatchConn"] = []
         self.all_streams: list["WatchConn"] = []
         self.max_latency_used = 0.0
+        self.closed_session_attempts: list[tuple[float, str, str]] = []
         self.arrive_hooks: list[Any] = []  # called when a (non-watch) request reaches the server, before it is applied
 
     # --- keyed pseudo-randomness (never Python's hash(), never the global `random`) ---
@@ -304,13 +307,17 @@ class Network:
         return True
 
     def pick_fault(self, attrs: dict[str, Any], phase: str) -> Optional[dict[str, Any]]:
+        # Every rule of this phase counts every request it matches (so that "nth" means the same
+        # for all rules); the first one that fires is applied.
+        chosen: Optional[dict[str, Any]] = None
         for rule in self.rules:
             if rule.get('phase', 'request') != phase:
                 continue
-            if self._match(rule, attrs):
-                rule['_hits'] += 1
-                return rule
-        return None
+            if self._match(rule, attrs) and chosen is None:
+                chosen = rule
+        if chosen is not None:
+            chosen['_hits'] += 1
+        return chosen
 
     # --- the request path ---
     def submit(self, session: FakeSession, loop: asyncio.AbstractEventLoop, fut: Any, method: str,
